@@ -406,12 +406,21 @@ func (s *MemoryStore) RevokeRefreshToken(ctx context.Context, requestID string) 
 }
 
 func (s *MemoryStore) RevokeAccessToken(ctx context.Context, requestID string) error {
+	// Same lock order as CreateAccessTokenSession: request-id index first, then the table.
 	s.accessTokenRequestIDsMutex.RLock()
 	defer s.accessTokenRequestIDsMutex.RUnlock()
+	s.accessTokensMutex.Lock()
+	defer s.accessTokensMutex.Unlock()
 
 	if signature, exists := s.AccessTokenRequestIDs[requestID]; exists {
-		if err := s.DeleteAccessTokenSession(ctx, signature); err != nil {
-			return err
+		delete(s.AccessTokens, signature)
+	}
+
+	// The index only knows the latest signature of a request. Access tokens of the same request that
+	// were issued earlier (for example by the authorization endpoint in the hybrid flow) are found by scanning.
+	for signature, req := range s.AccessTokens {
+		if req.GetID() == requestID {
+			delete(s.AccessTokens, signature)
 		}
 	}
 	return nil
